@@ -409,14 +409,28 @@ func vkPick(k int, mode int) *vkPayload {
 	case vkModeCurated:
 		*p = vkCurated[verifChoice(verifName("config", k), len(vkCurated))]
 	case vkModeFull:
+		// (only the choices that matter for the kind are made: no duplicate paths)
 		p.kind = verifChoice(verifName("kind", k), vkNKinds)
-		p.vtype = verifChoice(verifName("vtype", k), vkNTypes)
-		p.indent = verifChoice(verifName("indent", k), 2) == 1
-		p.assoc = verifChoice(verifName("assoc", k), 2) == 1
-		p.blobArr = verifChoice(verifName("blobarr", k), 2) == 1
-		p.cols = 1 + verifChoice(verifName("cols", k), 2)
-		textLen = 3 * verifChoice(verifName("textlen", k), 2)
-		blobLen = 2 * verifChoice(verifName("bloblen", k), 2)
+		switch p.kind {
+		case vkArray:
+			blobLen = 2 * verifChoice(verifName("bloblen", k), 2)
+		case vkExecOne, vkExecList:
+			p.indent = verifChoice(verifName("indent", k), 2) == 1
+		default:
+			p.vtype = verifChoice(verifName("vtype", k), vkNTypes)
+			p.indent = verifChoice(verifName("indent", k), 2) == 1
+			if p.kind != vkValues {
+				p.assoc = verifChoice(verifName("assoc", k), 2) == 1
+			}
+			p.cols = 1 + verifChoice(verifName("cols", k), 2)
+			switch p.vtype {
+			case vkText:
+				textLen = 3 * verifChoice(verifName("textlen", k), 2)
+			case vkBlob:
+				p.blobArr = verifChoice(verifName("blobarr", k), 2) == 1
+				blobLen = 2 * verifChoice(verifName("bloblen", k), 2)
+			}
+		}
 	case vkModeSmall:
 		p.kind, p.blobArr = vkRowsList, true
 		p.vtype = verifChoice(verifName("vtype", k), 3)
@@ -672,8 +686,9 @@ func VerifC30cSequential() {
 		verifReach("three-encodes")
 	}
 	// thorough: one of the first two encodes ranges over every combination
+	// (sequences of two; sequences of three: two curated configurations and a list of rows)
 	full := -1
-	if verifTier() == 1 {
+	if verifTier() == 1 && n == 2 {
 		full = verifChoice("full-side", 2)
 	}
 	for k := 0; k < n; k++ {
@@ -705,11 +720,14 @@ func VerifC30cSequential() {
 }
 
 // VerifC30cConcurrent: two requests are encoded by two goroutines; scheduling points are the
-// synchronisation operations of the package (sync.Pool Get/Put, locks, channels), one preemption.
+// synchronisation operations of the package (sync.Pool Get/Put, locks, channels); one preemption
+// (thorough: two, and the first request ranges over all curated configurations).
 func VerifC30cConcurrent() {
 	warm := vkStart()
 	a := vkPick(0, vkModeCurated)
-	verifAssume(a.kind == vkRowsList) // an integer in array form, or text in associative form
+	if verifTier() == 0 {
+		verifAssume(a.kind == vkRowsList) // an integer in array form, or text in associative form
+	}
 	ps := []*vkPayload{a, vkPick(1, vkModeSmall)}
 	rs := make([]*vkResult, 3)
 	rs[2] = warm
